@@ -181,6 +181,7 @@ func headerString(h http.Header) string {
 
 func main() {
 	r = lib.NewReport("C17")
+	defer r.Guard()
 	base := "http://api.test/v1"
 	templates := []string{"", "a", "a/{x}", "{x}/{y}", "{x}/{x}", "{x}/b/{y}/{z}", "{x}{y}/{z}/{w}"}
 	vals := map[string]interface{}{"x": 1, "y": "v", "z": "a b", "w": 3.5, "unused": "u"}
